@@ -63,8 +63,8 @@ PROP = {
     "id": "C08",
     "thm_module": "Tyme.Thm.C08",
     "thm_file": "Tyme/Thm/C08.lean",
-    "lean_targets": ["Tyme.Thm.C08", "Tyme.Thm.C08b", "Tyme.Thm.Total"],
-    "fact_files": [("Tyme/Thm/C08b.lean", "Tyme.Thm.C08b"), ("Tyme/Thm/Total.lean", "Tyme.Thm.Total")],
+    "lean_targets": ["Tyme.Thm.C08", "Tyme.Thm.C08b", "Tyme.Thm.Total", "Tyme.Thm.C08c"],
+    "fact_files": [("Tyme/Thm/C08b.lean", "Tyme.Thm.C08b"), ("Tyme/Thm/Total.lean", "Tyme.Thm.Total"), ("Tyme/Thm/C08c.lean", "Tyme.Thm.C08c")],
     "audit_files": ["Tyme/Lemmas/Pillar.lean", "Tyme/Facts/Windows.lean", "Tyme/Lemmas/Cycle.lean", "Tyme/Model/SixtyCycle.lean", "Tyme/Model/Lunar.lean", "Tyme/Model/Term.lean"],
     "gen": [gen_eph],
     "streams": [
